@@ -74,4 +74,4 @@ CHECKS["C13"] = c("abci", "TestC13", dict(checks=150, timeout=600), dict(checks=
              level_text="The real application runs a generated history twice, once while serving dispatch requests (through the application method and through the ABCI query route custom/pocketcore/dispatch at latest and past heights) and latest/historical queries between the ABCI calls; transcripts and final store "
                         "dumps must match. Histories contain the state changes that make a cached object stale (application edit/unstake/transfer, node edit/jail/unjail, claims for dispatched "
                         "sessions) and restarts that empty the node-local caches. Exploration.",
-             level_note="Relay handling itself (HandleRelay) is exercised by C34/C35; CheckTx / simulate of the block's own transactions is part of the traffic (C11 runs the same generator restricted to CheckTx, simulate and queries). Restart points are common to both runs.")
+             level_note="Relay handling itself (HandleRelay) is exercised by C34/C35; CheckTx / simulate of the block's own transactions is part of the traffic (C11 runs the same generator restricted to CheckTx, simulate and queries). Restart points are common to both runs. A third of the histories carry an overlay that makes a historical read matter: a node leaves and re-joins a chain around a session start, the dispatch querier is asked at a height in between, a servicer claims for that session later.")
